@@ -276,6 +276,29 @@ pub fn encrypt() -> DocSpec {
     b.finish(catalog, &layout, &mut rng)
 }
 
+/// like `encrypt`, but the trailer's /Encrypt is the crypt-filter (V 4) dictionary
+pub fn encrypt_v4() -> DocSpec {
+    let mut b = Builder::new();
+    let enc4 = b.add(Val::dict(vec![
+        ("Filter", Val::name("Standard")),
+        ("V", Val::Int(4)),
+        ("R", Val::Int(4)),
+        ("Length", Val::Int(128)),
+        ("P", Val::Int(-4)),
+        ("O", Val::Str(vec![7u8; 32])),
+        ("U", Val::Str(vec![9u8; 32])),
+        ("CF", Val::dict(vec![("StdCF", Val::dict(vec![("CFM", Val::name("V2")), ("AuthEvent", Val::name("DocOpen")), ("Length", Val::Int(16))]))])),
+        ("StmF", Val::name("StdCF")),
+        ("StrF", Val::name("StdCF")),
+        ("EncryptMetadata", Val::Bool(false)),
+    ]));
+    let catalog = base(&mut b, vec![], Val::dict(vec![]), None);
+    let mut layout = Layout::classic();
+    layout.trailer = vec![("Encrypt".into(), Val::r(enc4)), ("ID".into(), Val::Arr(vec![Val::Str(b"0123456789abcdef".to_vec()), Val::Str(b"0123456789abcdef".to_vec())]))];
+    let mut rng = Rng::new(1);
+    b.finish(catalog, &layout, &mut rng)
+}
+
 pub fn rich_all() -> DocSpec {
     let mut rng = Rng::new(7);
     families::rich(&mut rng, &families::RichOpts::all(), &Layout::classic())
@@ -292,6 +315,7 @@ pub fn all() -> Vec<(&'static str, DocSpec)> {
         ("xref_fields_classic_first", xref_fields(false)),
         ("xref_fields_stream_first", xref_fields(true)),
         ("encrypt", encrypt()),
+        ("encrypt_v4", encrypt_v4()),
         ("rich", rich_all()),
     ]
 }
